@@ -123,7 +123,7 @@ fn run_cli(s: &Scratch, tag: &str, args: &[std::ffi::OsString], stdin: &[u8], me
         match child.try_wait() {
             Ok(Some(st)) => break st,
             Ok(None) => {
-                if t0.elapsed() > Duration::from_secs(60) {
+                if t0.elapsed() > Duration::from_secs(20) {
                     let _ = child.kill();
                     let _ = child.wait();
                     return Err(RunErr::Timeout);
@@ -611,7 +611,7 @@ impl Prop for C20 {
             "the tool is run with NO_COLOR=1: colour escape sequences are not part of the property".into(),
             "layout and wording around the library's data are free: an error report must name its sort (parse / runtime, any case) before the library's message and nothing after it; `lint` must print every diagnostic in order with its line number, issue and suggestions; the tree dump is compared without blanks and commas; program output on stdout is compared byte for byte".into(),
             "the exit status for program and parse errors is not specified by the statement (0 today): recorded as a label, only crashes (101/signal) are refused".into(),
-            "programs whose library run exceeds 3000 loop iterations + calls or 1e6 elements per allocation are skipped (counted as resource_bound); a tool run over 60 s is counted as cli_timeout, not judged".into(),
+            "programs whose library run exceeds 3000 loop iterations + calls or 1e6 elements per allocation are skipped (counted as resource_bound); a tool run over 20 s is counted as cli_timeout, not judged".into(),
             "standard streams of the tool are files, not pipes (std's stdout is line-buffered in both cases)".into(),
         ]
     }
